@@ -1,3 +1,123 @@
+//! C11 - WARP envelopes cross the socket unchanged and reach only their addressee.
+//!
+//! Legs:
+//!  * `pure_*` (E4): `ReconEncoder` composed with `peel_envelope_header_str`, with the incoming
+//!    socket pipeline (`interpret_frame` hook = peel + `interpret_envelope`) and with the full Recon
+//!    parser, over every kind x node x lane x body of a boundary pool.
+//!  * `multireader_*` (E2): explicit-state search over the real `swimos_multi_reader::MultiReader`
+//!    with scripted streams around the bucket boundary (slab indices 0, 1, 63, 64, 65).
+
+mod multi;
+mod pure;
+
+use serde_json::json;
+use std::time::Instant;
+use vcommon::{Ctx, Leg};
+
+fn pairs_of(pool: &[String]) -> Vec<(String, String)> {
+    let mut v = vec![];
+    for n in pool {
+        for l in pool {
+            v.push((n.clone(), l.clone()));
+        }
+    }
+    v
+}
+
+fn pure_leg(ctx: &Ctx, name: &str, pairs: &[(String, String)], bodies: &[Option<String>], bounds: serde_json::Value) {
+    let t0 = Instant::now();
+    let sw = pure::sweep(pairs, bodies);
+    let mut samples = vec![];
+    for (n, l) in pairs.iter().filter(|(n, l)| n != "a" && l != "a").take(400).step_by(130) {
+        let c = pure::Case { kind: pure::Kind::Event, node: n.clone(), lane: Some(l.clone()), body: Some("@a{1}".into()) };
+        samples.push(json!({"case": c.to_json(), "frame": pure::check_case(&c).frame}));
+    }
+    ctx.add_leg(Leg {
+        name: name.into(),
+        engine: "E4-enum".into(),
+        states: sw.cases,
+        transitions: sw.calls,
+        evaluations: sw.cases,
+        distinct_nontrivial: sw.nontrivial,
+        rule: "every kind x node x lane x body; non-trivial = node or lane is not a bare identifier (quoted/escaped writer path), or a non-empty body, or the NoSuchAgent encoder".into(),
+        samples,
+        exhaustive: true,
+        bounds,
+        wall_s: t0.elapsed().as_secs_f64(),
+    });
+    for (sig, d) in sw.found {
+        ctx.violation(name, &sig, d);
+    }
+}
+
 fn main() {
-    vcommon::machinery_failure("C11: engine not built yet");
+    let ctx = Ctx::from_env("C11");
+
+    if let Some(r) = ctx.replay_request() {
+        let d = &r["detail"];
+        match d["leg"].as_str() {
+            Some("pure") => {
+                for (sig, det) in pure::replay(d) {
+                    ctx.violation("replay", &sig, det);
+                }
+            }
+            Some("multireader") => {
+                if let Some((sig, det)) = multi::replay(d) {
+                    ctx.violation("replay", &sig, det);
+                }
+            }
+            other => vcommon::machinery_failure(&format!("replay file has unknown leg {:?}", other)),
+        }
+        ctx.finish("model_checking", "replay");
+    }
+
+    // ---- leg (a): pure round trip
+    let design = pure::design_strings();
+    let bodies = pure::design_bodies();
+    pure_leg(
+        &ctx,
+        "pure_design_pool",
+        &pairs_of(&design),
+        &bodies,
+        json!({"strings": design, "pairs": design.len() * design.len(), "bodies": bodies, "kinds": 9, "readers": ["peel", "interpret", "recon"]}),
+    );
+    // every short string over a boundary alphabet as node (lane fixed) and as lane (node fixed)
+    let short_len = ctx.tier.pick(2, 3);
+    let short = pure::short_strings(short_len);
+    let mut pairs = vec![];
+    for s in &short {
+        pairs.push((s.clone(), "l".to_string()));
+        pairs.push(("/n".to_string(), s.clone()));
+    }
+    pure_leg(
+        &ctx,
+        "pure_short_strings",
+        &pairs,
+        &bodies,
+        json!({"alphabet": "a 1 space \" \\ \\n NUL é U+1F600 % @ ,", "max_len": short_len, "strings": short.len(), "position": "node with lane=l, lane with node=/n"}),
+    );
+    if !ctx.quick() {
+        let mut ext = design.clone();
+        ext.extend(pure::extra_strings());
+        let mut b2 = bodies.clone();
+        b2.extend(pure::extra_bodies());
+        pure_leg(
+            &ctx,
+            "pure_extended_pool",
+            &pairs_of(&ext),
+            &b2,
+            json!({"strings": ext.len(), "pairs": ext.len() * ext.len(), "bodies": b2.len(), "kinds": 9}),
+        );
+    }
+
+    // ---- leg (b): MultiReader
+    multi::run(&ctx);
+
+    ctx.assume("blanks (space, tab) in front of a Recon body are insignificant: the peeler drops all of them; where the written body itself starts with a blank the check verifies that both texts parse to the same value");
+    ctx.assume("Unlinked(None) and Unlinked(Some(\"\")) have the same wire form and are not distinguished");
+    ctx.assume("the socket-level leg (RemoteTask over a duplex web socket, E1) is not built; routing to subscribers is not covered by this check");
+    ctx.finish(
+        "model_checking",
+        "bounded-exhaustive enumeration of envelopes through the real writer and readers, and explicit-state search of the real MultiReader against its specification",
+    );
 }
